@@ -6,7 +6,7 @@ use core::cmp;
 
 verus! {
 
-//@item src/rtr/state.rs :: pub struct Serial
+//@item src/rtr/state.rs :: pub struct Serial keepderive=Clone,Copy
 
 /// RFC 1982 comparison for SERIAL_BITS = 32, phrased on the difference
 /// (b - a) mod 2^32 only (this is the property statement, not the code).
@@ -47,6 +47,33 @@ impl Serial {
     //@spec
         ensures r <==> rfc1982(self.0, other.0) == Some(cmp::Ordering::Equal),
                 r <==> self.0 == other.0,
+    //@/spec
+    //@end
+}
+
+//@item src/rtr/state.rs :: pub struct State pubfields keepderive=Clone,Copy
+impl State {
+    //@fn src/rtr/state.rs :: impl State :: from_parts
+    //@spec
+        ensures r.session == session, r.serial == serial,
+    //@/spec
+    //@end
+    //@fn src/rtr/state.rs :: impl State :: inc
+    //@spec
+        ensures
+            final(self).session == old(self).session,
+            final(self).serial.0 as int == (old(self).serial.0 as int + 1) % 0x1_0000_0000,
+            rfc1982(old(self).serial.0, final(self).serial.0) == Some(cmp::Ordering::Less),
+    //@/spec
+    //@end
+    //@fn src/rtr/state.rs :: impl State :: session
+    //@spec
+        ensures r == self.session,
+    //@/spec
+    //@end
+    //@fn src/rtr/state.rs :: impl State :: serial
+    //@spec
+        ensures r == self.serial,
     //@/spec
     //@end
 }
